@@ -1883,3 +1883,384 @@ Definition run_nlri_case (n : nlri) : val :=
 
 Definition run_wire_case := run_wire v6_print v6_parse.
 Definition run_api_case := run_api v6_print v6_parse.
+
+(* ================================================================== *)
+(* Typed messages of the attributes whose value is a TLV tree          *)
+(* (daemon/src/convert.rs prefix_sid_from_api / prefix_sid_to_api,     *)
+(*  tunnel_encap_tlv_from_api / tunnel_encap_tlv_to_api and the        *)
+(*  encoders of packet/src/prefix_sid.rs, packet/src/tunnel_encap.rs)  *)
+
+(* every element converts, or the whole list is refused (the `?` inside a for loop) *)
+Fixpoint opt_all {A B} (f : A -> option B) (l : list A) : option (list B) :=
+  match l with
+  | [] => Some []
+  | x :: r => match f x, opt_all f r with Some y, Some ys => Some (y :: ys) | _, _ => None end
+  end.
+
+(* [type][length: 2 octets][value]: `value.len() as u16` *)
+Definition tlv16 (t : N) (v : list N) : list N := t :: be16 (N.of_nat (length v)) ++ v.
+(* [type][length: 1 octet][value]: `body.len() as u8` *)
+Definition tlv8 (t : N) (v : list N) : list N := t :: (N.of_nat (length v) mod 256) :: v.
+
+(* ---- PREFIX_SID: SRv6 L3 / L2 service TLVs *)
+Inductive psst : Type := PsSt (a b c d e f : N).                            (* SID structure sub-sub-TLV *)
+Inductive ps_info : Type := PsInfo (sid : list N) (beh : N) (structs : list psst).
+Inductive ps_tlv : Type := PsSvc (l2 : bool) (infos : list ps_info).
+Definition psid : Type := list ps_tlv.
+
+(* a prost map is given as the list of its entries in iteration order *)
+Inductive api_psst : Type := APsStMissing | APsSt (a b c d e f : N).
+Inductive api_ps_info : Type := APsInfoMissing | APsInfo (sid : list N) (beh : N) (subsub : list (N * list api_psst)).
+Inductive api_ps_tlv : Type := APsMissing | APsSvc (l2 : bool) (subs : list (N * list api_ps_info)).
+
+Definition psst_from_api (x : api_psst) : option psst :=
+  match x with
+  | APsStMissing => None
+  | APsSt a b c d e f =>
+      if (255 <? a) || (255 <? b) || (255 <? c) || (255 <? d) || (255 <? e) || (255 <? f) then None
+      else Some (PsSt a b c d e f)
+  end.
+
+Definition ps_info_from_api (x : api_ps_info) : option ps_info :=
+  match x with
+  | APsInfoMissing => None
+  | APsInfo sid beh ss =>
+      if negb (Nat.eqb (length sid) 16) then None
+      else if 65535 <? beh then None
+      else match opt_all psst_from_api (flat_map snd ss) with
+           | Some l => Some (PsInfo sid beh l)
+           | None => None
+           end
+  end.
+
+Definition ps_tlv_from_api (x : api_ps_tlv) : option ps_tlv :=
+  match x with
+  | APsMissing => None
+  | APsSvc l2 subs =>
+      match opt_all ps_info_from_api (flat_map snd subs) with
+      | Some l => Some (PsSvc l2 l)
+      | None => None
+      end
+  end.
+
+Definition psid_from_api (x : list api_ps_tlv) : option psid := opt_all ps_tlv_from_api x.
+
+Definition psst_bytes (s : psst) : list N := match s with PsSt a b c d e f => tlv16 1 [a; b; c; d; e; f] end.
+Definition ps_info_value (i : ps_info) : list N :=
+  match i with PsInfo sid beh ss => 0 :: sid ++ 0 :: be16 beh ++ 0 :: flat_map psst_bytes ss end.
+Definition ps_info_bytes (i : ps_info) : list N := tlv16 1 (ps_info_value i).
+Definition ps_tlv_value (t : ps_tlv) : list N := match t with PsSvc _ infos => 0 :: flat_map ps_info_bytes infos end.
+Definition ps_tlv_bytes (t : ps_tlv) : list N :=
+  tlv16 (match t with PsSvc l2 _ => if l2 then 6 else 5 end) (ps_tlv_value t).
+Definition psid_encode (p : psid) : list N := flat_map ps_tlv_bytes p.
+
+(* attr_from_api on a PrefixSid message *)
+Definition from_api_psid (x : list api_ps_tlv) : res (option attr) :=
+  match psid_from_api x with
+  | Some p => len_check (new_with_bin PREFIX_SID (psid_encode p))
+  | None => Ok None
+  end.
+
+Definition psst_to_api (s : psst) : api_psst := match s with PsSt a b c d e f => APsSt a b c d e f end.
+Definition ps_info_to_api (i : ps_info) : api_ps_info :=
+  match i with PsInfo sid beh ss => APsInfo sid beh (match ss with [] => [] | _ => [(1, map psst_to_api ss)] end) end.
+Definition ps_tlv_to_api (t : ps_tlv) : api_ps_tlv :=
+  match t with PsSvc l2 infos => APsSvc l2 (match infos with [] => [] | _ => [(1, map ps_info_to_api infos)] end) end.
+Definition psid_to_api (p : psid) : list api_ps_tlv := map ps_tlv_to_api p.
+
+(* ---- TUNNEL_ENCAP: SR Policy candidate path, raw value for the other tunnel types *)
+Inductive ebs : Type := Ebs (beh bl nl fl al : N).
+Inductive api_ebs : Type := AEbs (beh : Z) (bl nl fl al : N).          (* behavior is an int32 enumeration field *)
+
+Definition ebs_from_api (e : api_ebs) : option ebs :=
+  match e with
+  | AEbs beh bl nl fl al =>
+      if (beh <? 0)%Z || (65535 <? beh)%Z || (255 <? bl) || (255 <? nl) || (255 <? fl) || (255 <? al) then None
+      else Some (Ebs (Z.to_N beh) bl nl fl al)
+  end.
+Definition ebs_to_api (e : ebs) : api_ebs := match e with Ebs beh bl nl fl al => AEbs (Z.of_N beh) bl nl fl al end.
+
+Definition flag_bit (b : bool) (v : N) : N := if b then v else 0.
+Definition segflags (f : option (bool * bool * bool * bool)) : N :=
+  match f with
+  | None => 0
+  | Some (v, a, s, b) => flag_bit v 128 + flag_bit a 64 + flag_bit s 32 + flag_bit b 16
+  end.
+Definition bit_set (f v : N) : bool := negb ((f / v) mod 2 =? 0).
+
+Inductive te_seg : Type := SegA (flags label : N) | SegB (flags : N) (sid : list N) (e : option ebs).
+Inductive api_seg : Type :=
+| ASegMissing
+| ASegA (fl : option (bool * bool * bool * bool)) (label : N)
+| ASegB (fl : option (bool * bool * bool * bool)) (sid : list N) (e : option api_ebs).
+
+Definition seg_from_api (x : api_seg) : option te_seg :=
+  match x with
+  | ASegMissing => None
+  | ASegA fl label => if 1048575 <? label then None else Some (SegA (segflags fl) label)
+  | ASegB fl sid e =>
+      if negb (Nat.eqb (length sid) 16) then None
+      else match e with
+           | None => Some (SegB (segflags fl) sid None)
+           | Some e' => match ebs_from_api e' with Some e'' => Some (SegB (segflags fl) sid (Some e'')) | None => None end
+           end
+  end.
+
+Inductive te_bsid : Type := BsMpls (flags label : N) | BsSrv6 (flags : N) (sid : list N).
+
+Record te_cp : Type := mkCp {
+  cp_pref : option (N * N);                          (* flags, preference *)
+  cp_bsid : option te_bsid;                          (* sub-TLV 13 *)
+  cp_bsid6 : option (N * list N * ebs);              (* sub-TLV 20: flags, SID, behaviour structure *)
+  cp_enlp : option (N * N);
+  cp_prio : option N;
+  cp_segs : list (option (N * N) * list te_seg);     (* weight (flags, weight), segments *)
+  cp_name : option (list N);
+  cp_pname : option (list N)
+}.
+Definition cp_empty : te_cp := mkCp None None None None None [] None None.
+
+Inductive te_tlv : Type := TeSr (cp : te_cp) | TeRaw (type : N) (v : list N).
+
+Inductive api_te_sub : Type :=
+| ATsMissing                                          (* the oneof is not set *)
+| ATsOther                                            (* Encapsulation, Protocol, Color, EgressEndpoint, UdpDestPort *)
+| ATsPref (flags pref : N)
+| ATsBsidNone
+| ATsBsidMpls (s i : bool) (sid : list N)
+| ATsBsid6 (s i b : bool) (sid : list N) (e : option api_ebs)
+| ATsEnlp (flags : N) (enlp : Z)
+| ATsPrio (p : N)
+| ATsName (n : list N)
+| ATsSegList (w : option (N * N)) (segs : list api_seg)
+| ATsUnknown (t : N) (v : list N).
+
+(* std::str::from_utf8(..).is_ok() *)
+Definition cont (b : N) : bool := (128 <=? b) && (b <=? 191).
+Fixpoint utf8_valid (l : list N) : bool :=
+  match l with
+  | [] => true
+  | b0 :: r =>
+      if b0 <? 128 then utf8_valid r
+      else if (194 <=? b0) && (b0 <=? 223) then
+        match r with b1 :: r' => cont b1 && utf8_valid r' | _ => false end
+      else if (224 <=? b0) && (b0 <=? 239) then
+        match r with
+        | b1 :: b2 :: r' =>
+            (if b0 =? 224 then (160 <=? b1) && (b1 <=? 191)
+             else if b0 =? 237 then (128 <=? b1) && (b1 <=? 159)
+             else cont b1) && cont b2 && utf8_valid r'
+        | _ => false
+        end
+      else if (240 <=? b0) && (b0 <=? 244) then
+        match r with
+        | b1 :: b2 :: b3 :: r' =>
+            (if b0 =? 240 then (144 <=? b1) && (b1 <=? 191)
+             else if b0 =? 244 then (128 <=? b1) && (b1 <=? 143)
+             else cont b1) && cont b2 && cont b3 && utf8_valid r'
+        | _ => false
+        end
+      else false
+  end.
+
+(* a sub-TLV that may appear once: a second one is refused *)
+Definition once {A} (slot : option A) : bool := match slot with Some _ => false | None => true end.
+
+Definition cp_step (cp : te_cp) (s : api_te_sub) : option te_cp :=
+  match cp with
+  | mkCp pref bsid bsid6 enlp prio segs name pname =>
+      match s with
+      | ATsMissing | ATsOther | ATsBsidNone => None
+      | ATsPref f p =>
+          if (255 <? f) || negb (once pref) then None else Some (mkCp (Some (f, p)) bsid bsid6 enlp prio segs name pname)
+      | ATsBsidMpls sf i_ sid =>
+          match sid with
+          | [a; b; c; d] =>
+              let entry := of_be32 a b c d in
+              if negb (entry mod 4096 =? 0) || negb (once bsid) then None
+              else Some (mkCp pref (Some (BsMpls (flag_bit sf 128 + flag_bit i_ 64) (entry / 4096))) bsid6 enlp prio segs name pname)
+          | _ => None
+          end
+      | ATsBsid6 sf i_ bf sid e =>
+          let flags := flag_bit sf 128 + flag_bit i_ 64 + flag_bit bf 32 in
+          if negb (Nat.eqb (length sid) 16) then None
+          else match e with
+               | None => if once bsid then Some (mkCp pref (Some (BsSrv6 flags sid)) bsid6 enlp prio segs name pname) else None
+               | Some e' =>
+                   match ebs_from_api e' with
+                   | Some e'' => if once bsid6 then Some (mkCp pref bsid (Some (flags, sid, e'')) enlp prio segs name pname) else None
+                   | None => None
+                   end
+               end
+      | ATsEnlp f e =>
+          if (255 <? f) || (e <? 0)%Z || (255 <? e)%Z || negb (once enlp) then None
+          else Some (mkCp pref bsid bsid6 (Some (f, Z.to_N e)) prio segs name pname)
+      | ATsPrio p =>
+          if (255 <? p) || negb (once prio) then None else Some (mkCp pref bsid bsid6 enlp (Some p) segs name pname)
+      | ATsName n => if once name then Some (mkCp pref bsid bsid6 enlp prio segs (Some n) pname) else None
+      | ATsSegList w gs =>
+          if match w with Some (f, _) => 255 <? f | None => false end then None
+          else match opt_all seg_from_api gs with
+               | Some l => Some (mkCp pref bsid bsid6 enlp prio (segs ++ [(w, l)]) name pname)
+               | None => None
+               end
+      | ATsUnknown t v =>
+          if (t =? 130) && utf8_valid v && once pname then Some (mkCp pref bsid bsid6 enlp prio segs name (Some v)) else None
+      end
+  end.
+
+Fixpoint cp_steps (cp : te_cp) (subs : list api_te_sub) : option te_cp :=
+  match subs with
+  | [] => Some cp
+  | s :: r => match cp_step cp s with Some cp' => cp_steps cp' r | None => None end
+  end.
+
+Fixpoint raw_values (subs : list api_te_sub) : option (list N) :=
+  match subs with
+  | [] => Some []
+  | ATsUnknown _ v :: r => match raw_values r with Some l => Some (v ++ l) | None => None end
+  | _ => None
+  end.
+
+Definition SR_POLICY : N := 15.
+
+Definition te_tlv_from_api (x : N * list api_te_sub) : option te_tlv :=
+  let (t, subs) := x in
+  if 65535 <? t then None
+  else if t =? SR_POLICY then match cp_steps cp_empty subs with Some cp => Some (TeSr cp) | None => None end
+  else match raw_values subs with Some v => Some (TeRaw t v) | None => None end.
+
+Definition te_from_api (x : list (N * list api_te_sub)) : option (list te_tlv) := opt_all te_tlv_from_api x.
+
+(* packet::tunnel_encap::encode *)
+Definition ebs_seg_bytes (e : option ebs) : list N :=
+  match e with Some (Ebs beh bl nl fl al) => be16 beh ++ [0; 0; bl; nl; fl; al] | None => [] end.
+Definition seg_bytes (g : te_seg) : list N :=
+  match g with
+  | SegA f label => tlv8 1 (f :: 0 :: be32 (label * 4096))
+  | SegB f sid e => tlv8 13 (f :: 0 :: sid ++ ebs_seg_bytes e)
+  end.
+Definition seglist_value (sl : option (N * N) * list te_seg) : list N :=
+  0 :: (match fst sl with Some (f, w) => tlv8 9 (f :: 0 :: be32 w) | None => [] end) ++ flat_map seg_bytes (snd sl).
+Definition opt_bytes {A B} (o : option A) (f : A -> list B) : list B := match o with Some x => f x | None => [] end.
+Definition cp_bytes (cp : te_cp) : list N :=
+  opt_bytes (cp_pref cp) (fun x => tlv8 12 (fst x :: 0 :: be32 (snd x)))
+  ++ opt_bytes (cp_bsid cp) (fun x => match x with
+                                      | BsMpls f l => tlv8 13 (f :: 0 :: be32 (l * 4096))
+                                      | BsSrv6 f sid => tlv8 13 (f :: 0 :: sid)
+                                      end)
+  ++ opt_bytes (cp_bsid6 cp) (fun x => match x with
+                                       | (f, sid, Ebs beh bl nl fl al) => tlv8 20 (f :: 0 :: sid ++ be16 beh ++ [bl; nl; fl; al])
+                                       end)
+  ++ opt_bytes (cp_enlp cp) (fun x => tlv8 14 [fst x; 0; snd x])
+  ++ opt_bytes (cp_prio cp) (fun p => tlv8 15 [p; 0])
+  ++ opt_bytes (cp_name cp) (fun n => tlv16 129 (0 :: n))
+  ++ opt_bytes (cp_pname cp) (fun n => tlv16 130 (0 :: n))
+  ++ flat_map (fun sl => tlv16 128 (seglist_value sl)) (cp_segs cp).
+
+Definition te_tlv_value (t : te_tlv) : list N := match t with TeSr cp => cp_bytes cp | TeRaw _ v => v end.
+Definition te_tlv_type (t : te_tlv) : N := match t with TeSr _ => SR_POLICY | TeRaw ty _ => ty end.
+Definition te_tlv_bytes (t : te_tlv) : list N :=
+  be16 (te_tlv_type t) ++ be16 (N.of_nat (length (te_tlv_value t))) ++ te_tlv_value t.
+Definition te_encode (l : list te_tlv) : list N := flat_map te_tlv_bytes l.
+
+(* attr_from_api on a TunnelEncap message *)
+Definition from_api_te (x : list (N * list api_te_sub)) : res (option attr) :=
+  match te_from_api x with
+  | Some l => len_check (new_with_bin TUNNEL_ENCAP (te_encode l))
+  | None => Ok None
+  end.
+
+(* tunnel_encap_tlv_to_api on the value as the decoder of packet/src/tunnel_encap.rs reads it: a type B
+   segment's behaviour structure is read only under flag 0x40, a raw value has no typed sub-TLVs *)
+Definition flags4 (f : N) : option (bool * bool * bool * bool) := Some (bit_set f 128, bit_set f 64, bit_set f 32, bit_set f 16).
+Definition seg_to_api (g : te_seg) : api_seg :=
+  match g with
+  | SegA f label => ASegA (flags4 f) label
+  | SegB f sid e => ASegB (flags4 f) sid (if bit_set f 64 then option_map ebs_to_api e else None)
+  end.
+Definition cp_to_api (cp : te_cp) : list api_te_sub :=
+  opt_bytes (cp_pref cp) (fun x => [ATsPref (fst x) (snd x)])
+  ++ opt_bytes (cp_bsid cp) (fun x => match x with
+                                      | BsMpls f l => [ATsBsidMpls (bit_set f 128) (bit_set f 64) (be32 (l * 4096))]
+                                      | BsSrv6 f sid => [ATsBsid6 (bit_set f 128) (bit_set f 64) false sid None]
+                                      end)
+  ++ opt_bytes (cp_bsid6 cp) (fun x => match x with
+                                       | (f, sid, e) => [ATsBsid6 (bit_set f 128) (bit_set f 64) (bit_set f 32) sid (Some (ebs_to_api e))]
+                                       end)
+  ++ opt_bytes (cp_enlp cp) (fun x => [ATsEnlp (fst x) (Z.of_N (snd x))])
+  ++ opt_bytes (cp_prio cp) (fun p => [ATsPrio p])
+  ++ map (fun sl => ATsSegList (fst sl) (map seg_to_api (snd sl))) (cp_segs cp)
+  ++ opt_bytes (cp_name cp) (fun n => [ATsName n])
+  ++ opt_bytes (cp_pname cp) (fun n => [ATsUnknown 130 n]).
+Definition te_tlv_to_api (t : te_tlv) : N * list api_te_sub :=
+  match t with TeSr cp => (SR_POLICY, cp_to_api cp) | TeRaw ty _ => (ty, []) end.
+Definition te_to_api (l : list te_tlv) : list (N * list api_te_sub) := map te_tlv_to_api l.
+
+(* attr_to_api shows the typed message only when it gives the stored octets back *)
+Definition te_lists_typed (l : list te_tlv) : bool :=
+  match te_from_api (te_to_api l) with
+  | Some l' => list_eqb (te_encode l') (te_encode l)
+  | None => false
+  end.
+
+(* ---- kind 9: [accepted; value octets; the listing (typed message, or 99 for the raw form)] *)
+Definition v_pair_list {A} (f : A -> val) (l : list A) : val := match l with [] => VL [] | _ => VL [VL [VI 1; VList f l]] end.
+Definition v_psst (s : api_psst) : val :=
+  match s with APsStMissing => VL [VI 0] | APsSt a b c d e f => VL [VI 1; VN a; VN b; VN c; VN d; VN e; VN f] end.
+Definition v_ps_info (i : api_ps_info) : val :=
+  match i with
+  | APsInfoMissing => VL [VI 0]
+  | APsInfo sid beh ss => VL [VI 1; VNs sid; VN beh; VList (fun e => VL [VN (fst e); VList v_psst (snd e)]) ss]
+  end.
+Definition v_ps_tlv (t : api_ps_tlv) : val :=
+  match t with
+  | APsMissing => VL [VI 0]
+  | APsSvc l2 subs => VL [VI (if l2 then 4 else 3); VList (fun e => VL [VN (fst e); VList v_ps_info (snd e)]) subs]
+  end.
+
+Definition run_api_psid_case (x : list api_ps_tlv) : val :=
+  match psid_from_api x with
+  | None => VL [VI 0]
+  | Some p =>
+      let b := psid_encode p in
+      if 65535 <? N.of_nat (length b) then VL [VI 0]
+      else if Nat.ltb 1024 (length b) then VL [VI 1; v_bytes_c b; VL [VI (-7)]]     (* long value: the listing is not printed *)
+      else VL [VI 1; v_bytes_c b; VList v_ps_tlv (psid_to_api p)]
+  end.
+
+Definition v_ebs (e : option api_ebs) : val :=
+  match e with None => VL [] | Some (AEbs beh bl nl fl al) => VL [VI beh; VN bl; VN nl; VN fl; VN al] end.
+Definition v_flags4 (f : option (bool * bool * bool * bool)) : val :=
+  match f with None => VL [] | Some (v, a, s, b) => VL [VB v; VB a; VB s; VB b] end.
+Definition v_seg (g : api_seg) : val :=
+  match g with
+  | ASegMissing => VL [VI 0]
+  | ASegA fl label => VL [VI 1; v_flags4 fl; VN label]
+  | ASegB fl sid e => VL [VI 2; v_flags4 fl; VNs sid; v_ebs e]
+  end.
+Definition v_te_sub (s : api_te_sub) : val :=
+  match s with
+  | ATsMissing => VL [VI 0]
+  | ATsOther => VL [VI 8; VI 0]
+  | ATsPref f p => VL [VI 1; VN f; VN p]
+  | ATsBsidNone => VL [VI 2; VI 0]
+  | ATsBsidMpls s i sid => VL [VI 2; VI 1; VB s; VB i; VNs sid]
+  | ATsBsid6 s i b sid e => VL [VI 2; VI 2; VB s; VB i; VB b; VNs sid; v_ebs e]
+  | ATsEnlp f e => VL [VI 3; VN f; VI e]
+  | ATsPrio p => VL [VI 4; VN p]
+  | ATsName n => VL [VI 5; VNs n]
+  | ATsSegList w gs => VL [VI 6; match w with Some (f, x) => VL [VN f; VN x] | None => VL [] end; VList v_seg gs]
+  | ATsUnknown t v => VL [VI 7; VN t; VNs v]
+  end.
+
+Definition run_api_te_case (x : list (N * list api_te_sub)) : val :=
+  match te_from_api x with
+  | None => VL [VI 0]
+  | Some l =>
+      let b := te_encode l in
+      if 65535 <? N.of_nat (length b) then VL [VI 0]
+      else if Nat.ltb 1024 (length b) then VL [VI 1; v_bytes_c b; VL [VI (-7)]]
+      else VL [VI 1; v_bytes_c b;
+               if te_lists_typed l then VList (fun t => VL [VN (fst t); VList v_te_sub (snd t)]) (te_to_api l) else VL [VI 99]]
+  end.
